@@ -92,7 +92,7 @@ def _explore(ob, prop, known, conn):
         ex = core.Explorer(max_paths=ob.max_paths, query_timeout_ms=ob.query_timeout_ms,
                            concretize_cap=ob.concretize_cap, wall_s=ob.wall_s,
                            stop_on_violation=ob.stop_on_violation, oneshot=ob.oneshot)
-        kn = [k for k in known if k.get('obligation') in (None, ob.name)]
+        kn = [k for k in known if k.get('obligation') in (None, ob.name, ob.name.split('#')[0])]
         ex.known = kn
         ex.known_hits = {}
 
